@@ -704,8 +704,14 @@ def c19_bad(tier, rnd):
 
     def P(items, al, fam):
         progs.append(program(items, al.dom, fam="C19:" + fam))
-    for kbad in range(4):
+    from .concretize import BAD_EXPRS
+    kbads = list(range(4)) + (rnd.sample(range(4, len(BAD_EXPRS)), 3) if tier == "quick" else list(range(4, len(BAD_EXPRS))))
+    for kbad in kbads:
         b = bad(kbad)
+        # a named attribute that a later dictionary of the statement provides is not evaluated
+        al = Alloc(tier)
+        P([Text("pre"), Open(sattr=["class"], dattr=[("title", b), ("", al.call("attrs", [DICT([("title", S("a"))]), DICT([]), DICT([("id", S("b"))])]))]),
+           Text("k"), CLOSE, Text("post")], al, "attr-provided-by-later-dict")
         for site in SITES:
             al = Alloc(tier)
             P(host(site, b, al), al, "reach:%s" % site)
